@@ -257,7 +257,11 @@ func genC14Api(t *rapid.T) ReqCase {
 	m := g.Pick("aspectEliminationHeuristic", "satisfactionHeuristic")
 	var gr GenReq
 	for i := 0; ; i++ {
-		gr = genRequest(t, GenOpts{Methods: []string{m}, MaxAlts: 5, MaxCrit: 3, ValueMode: -1, FixedOrder: true})
+		o := GenOpts{Methods: []string{m}, MaxAlts: 5, MaxCrit: 3, ValueMode: -1, FixedOrder: true}
+		if g.Chance(1, 3) {
+			o.MaxBiases = 2 // the series must follow the declared / observed ranges also behind biases
+		}
+		gr = genRequest(t, o)
 		if str(asM(gr.Req["methodParameters"])["function"]) != "thresholds" || i > 20 {
 			break
 		}
